@@ -12,6 +12,8 @@ var Registry = map[string]func(*Ctx){
 	"C02": C02,
 	"C05": C05,
 	"C06": C06,
+	"C08": C08,
+	"C10": C10,
 	"C11": C11,
 	"C12": C12,
 	"C14": C14,
